@@ -199,6 +199,7 @@ def modules_tables(repo: Path) -> str:
     trans_sub, trans_dock = expect("Module.is_trans_at", 2)
     iterative, = expect("Module.is_iterative", 1)
     termination = expect("Module.is_termination_module", 2)
+    end_trim = expect("Module.end", 2)
     ensure_consts = str_constants("Module.ensure_suitable")
     kr_ensure = [c for c in ensure_consts if c in sets["MODIFIERS"]]
     if len(kr_ensure) != 1:
@@ -224,6 +225,8 @@ def modules_tables(repo: Path) -> str:
     out.append(f"def transAtDocking : String := {lean_str(trans_dock)}")
     out.append(f"def iterativeSubtype : String := {lean_str(iterative)}")
     out.append(f"def terminationLabels : List String := {lean_str_list(termination)}")
+    out.append("/-- the finalising domains `Module.end` does not count into the module's extent -/")
+    out.append(f"def endTrimLabels : List String := {lean_str_list(end_trim)}")
     out.append(f"def starterModuleLabels : List String := {lean_str_list(sorted(starter_module))}")
     out.append(f"def transAtKrLabel : String := {lean_str(kr_ensure[0])}")
     out.append(f"def trailingKrLabel : String := {lean_str(kr_combine[0])}")
